@@ -147,22 +147,29 @@ func runC18(w *World, r *Report, tier string) {
 		// every nil return requires err == nil and n == 1
 		bad := ""
 		nNil := 0
-		walkPaths(after(wc), nil, nil, 2000, func(path []ssa.Instruction, end pathEnd) {
-			ret, ok := path[len(path)-1].(*ssa.Return)
-			if !ok || !isNilConst(rres(path, ret)[0]) {
-				return
-			}
-			nNil++
-			var nV, eV ssa.Value
-			for _, rf := range *wc.Referrers() {
-				if ex, ok := rf.(*ssa.Extract); ok {
-					if ex.Index == 0 {
-						nV = ex
-					} else {
-						eV = ex
-					}
+		var nV, eV ssa.Value
+		for _, rf := range *wc.Referrers() {
+			if ex, ok := rf.(*ssa.Extract); ok {
+				if ex.Index == 0 {
+					nV = ex
+				} else {
+					eV = ex
 				}
 			}
+		}
+		walkPaths(after(wc), nil, nil, 2000, func(path []ssa.Instruction, end pathEnd) {
+			ret, ok := path[len(path)-1].(*ssa.Return)
+			if !ok {
+				return
+			}
+			// a return that reports success: nil, or the write's own error on a path where it was found nil
+			res := rres(path, ret)[0]
+			if !isNilConst(res) {
+				if res != eV || !pathAsserts(path, func(c ssa.Value, truth bool) bool { return assertsNil(c, truth, eV) }) {
+					return
+				}
+			}
+			nNil++
 			okE := eV != nil && pathAsserts(path, func(c ssa.Value, truth bool) bool { return assertsNil(c, truth, eV) })
 			okN := nV != nil && pathAsserts(path, func(c ssa.Value, truth bool) bool {
 				bo, ok := c.(*ssa.BinOp)
@@ -170,6 +177,12 @@ func runC18(w *World, r *Report, tier string) {
 					return false
 				}
 				k, isK := intConst(bo.Y)
+				if !isK {
+					// n compared with len(payload)
+					if lc, ok := bo.Y.(*ssa.Call); ok && w.callKey(lc) == "builtin.len" && lc.Call.Args[0] == arg && payload == `"\n"` {
+						k, isK = 1, true
+					}
+				}
 				if !isK || k != 1 {
 					return false
 				}
